@@ -40,6 +40,11 @@ BACKENDS = {"numpy": (T + "numpy_backend.py", "numpy_backend"), "jax": (T + "jax
 PROB_METHODS = ["poisson", "poisson_logpdf", "normal", "normal_logpdf", "normal_cdf", "poisson_dist", "normal_dist"]
 
 
+def _not_mine():
+    from ..alg import NotHandled
+    raise NotHandled()
+
+
 def _dist_ext():
     """externals modelling library distribution constructors as opaque objects carrying their argument roles."""
     def ctor(name):
@@ -48,7 +53,8 @@ def _dist_ext():
             return Obj(f"{name}[{','.join(parts)}]")
         return f
     return {"Poisson": ctor("Poisson"), "Normal": ctor("Normal"), "broadcast_all": lambda a, k: tuple(a),
-            ".reciprocal": lambda recv, a, k: to_poly(recv).inverse(),
+            ".reciprocal": lambda recv, a, k: to_poly(recv).inverse(), "reciprocal": lambda a, k: to_poly(a[0]).inverse() if a else _not_mine(),
+            "negative": lambda a, k: -to_poly(a[0]) if a else _not_mine(),
             ".pdf": lambda recv, a, k: fn("normpdf", *[to_poly(x) for x in a], *[to_poly(v) for _, v in sorted(k.items())]),
             ".cdf": lambda recv, a, k: (fn("normcdf", *[to_poly(x) for x in a], *[to_poly(v) for _, v in sorted(k.items())]) if (not isinstance(recv, Obj) or recv.name == "norm") else fn("cdf", Poly.atom(recv.name), *[to_poly(x) for x in a])),
             "_BasicPoisson": ctor("_BasicPoisson"), "_BasicNormal": ctor("_BasicNormal"),
@@ -84,8 +90,10 @@ def run(ctx):
     r5 = ctx.rule("C04.R5", "SIB: the four backend classes expose the same public method set with the same parameter names and (numerically) equal defaults", "SIB", floor=35)
     r6 = ctx.rule("C04.R6", "PREC: in astensor/ones/zeros the library constructor that first sees python numbers receives the dtype looked up in self.dtypemap (dtype= or dtype_hint=)", "PREC", floor=12)
 
+    r8 = ctx.rule("C04.R8", "DTYPE: no probability primitive applies an operation that truncates on integer input (numpy reciprocal / floor_divide / //) to a caller-supplied argument that nothing has made floating: the documented defaults mu=0, sigma=1 and user calls like normal_cdf(x, 10, 2) pass python ints", "DTYPE", floor=2)
     r7 = ctx.rule("C04.R7", "MODE: nothing in src/pyhf switches the numeric mode of a tensor library in a way that changes results process-wide (denormal flushing, TF32 / reduced matmul precision, fast-math): such a switch silently turns Poisson terms of denormal rates into -inf and far-tail probabilities into 0, also for backends selected later", "MODE", floor=2)
     _numeric_mode(ctx, r7, repo)
+    _int_dtype(ctx, r8, repo)
     n, lam, x, mu, sigma = (Poly.atom(s) for s in ("n", "lam", "x", "mu", "sigma"))
     ref_pois = fn("xlogy", n, lam) - lam - fn("gammaln", n + 1)
     ref_norm = -fn("log", sigma * fn("sqrt", 2 * Poly.atom("PI"))) - ((x - mu) / (fn("sqrt", Poly.const(2)) * sigma)) ** 2
@@ -170,16 +178,18 @@ def run(ctx):
             ctx.holds(r4, f"{site}.normal_cdf", "no complement")
         try:
             v = to_poly(_eval_method(c, "normal_cdf", ["x", "mu", "sigma"]))
-            if b == "pytorch":
-                want = Fraction(1, 2) * fn("erfc", -((x - mu) / (sigma * fn("sqrt", Poly.const(2)))))
-            elif b == "tensorflow":
-                want = fn("cdf", Poly.atom("Normal[mu,sigma]"), x)
+            # any exact form is accepted on any backend: the library's own cdf with (x, loc=mu, scale=sigma), the
+            # distribution object's cdf, ndtr((x - mu)/sigma), or 0.5*erfc(-(x - mu)/(sigma*sqrt 2))
+            forms = [
+                Fraction(1, 2) * fn("erfc", -((x - mu) / (sigma * fn("sqrt", Poly.const(2))))),
+                fn("cdf", Poly.atom("Normal[mu,sigma]"), x),
+                fn("normcdf", x, mu, sigma),
+                fn("ndtr", (x - mu) / sigma),
+            ]
+            if any(v == w_ for w_ in forms):
+                ctx.holds(r4, f"{site}.normal_cdf", str(v))
             else:
-                want = fn("normcdf", x, mu, sigma)
-            if v == want:
-                ctx.holds(r4, f"{site}.normal_cdf", str(want))
-            else:
-                ctx.violated(r4, cdf, "normal_cdf", "normal_cdf is not the standard form for this backend with argument roles (x, mu, sigma)", expected=str(want), found=str(v))
+                ctx.violated(r4, cdf, "normal_cdf", "normal_cdf is none of the exact forms of Phi((x - mu)/sigma) (library cdf with loc=mu, scale=sigma; ndtr((x-mu)/sigma); 0.5*erfc(-(x-mu)/(sigma*sqrt 2)))", expected=" | ".join(str(w_) for w_ in forms), found=str(v))
             if b in ("numpy", "jax"):
                 _kw_roles(ctx, r4, cdf, "cdf")
         except Undecided as e:
@@ -354,3 +364,97 @@ def _numeric_mode(ctx, rid, repo):
             ctx.violated(rid, (m.relpath, "<module>"), nd, f"`{A.short(nd, 70)}` switches a process-wide numeric mode of the tensor library: values that were representable (denormal rates, tail probabilities) are flushed or rounded differently from then on, for every backend used later in the process", expected="no numeric mode switch in the package", node=nd)
     if not hits:
         ctx.holds(rid, f"src/pyhf ({nmod} modules)", "no denormal-flush / reduced-precision / fast-math switch")
+
+
+INT_TRUNCATING_CALLS = {"reciprocal", "floor_divide", "floordiv", "trunc_divide"}
+FLOATING_CALLS = {"astensor", "asarray", "array", "float", "astype", "as_tensor", "convert_to_tensor", "cast", "to", "true_divide", "divide", "sqrt", "exp", "log", "float64", "float32", "double"}
+
+
+def _int_truncations(fnode):
+    """Operations of numpy semantics that keep an INTEGER input integer and truncate (reciprocal(2) == 0, 7 // 2 == 3),
+    applied to an expression built from the function's parameters by arithmetic alone (no call that could have made it a
+    float, no true division, no float literal).  -> [(node, parameter names)]"""
+    params = set(A.params_of(fnode)) - {"self"}
+    defs = {}
+    for st in ast.walk(fnode):
+        if isinstance(st, ast.Assign) and len(st.targets) == 1 and isinstance(st.targets[0], ast.Name):
+            defs.setdefault(st.targets[0].id, []).append(st.value)
+
+    def int_typed(e, depth=0):
+        """parameter names reached when e may still be integer-typed; None when something made it floating"""
+        if depth > 6:
+            return None
+        if isinstance(e, ast.Name):
+            if e.id in defs and e.id not in params:
+                out = set()
+                for d in defs[e.id]:
+                    r = int_typed(d, depth + 1)
+                    if r is None:
+                        return None
+                    out |= r
+                return out
+            return {e.id} if e.id in params else set()
+        if isinstance(e, ast.Constant):
+            return None if isinstance(e.value, float) else set()
+        if isinstance(e, ast.UnaryOp):
+            return int_typed(e.operand, depth + 1)
+        if isinstance(e, ast.BinOp):
+            if isinstance(e.op, ast.Div):
+                return None
+            l, r = int_typed(e.left, depth + 1), int_typed(e.right, depth + 1)
+            return None if l is None or r is None else l | r
+        if isinstance(e, ast.Call) and A.call_attr(e) in ("subtract", "add", "multiply", "negative", "abs", "absolute", "square") and not e.keywords:
+            out = set()
+            for a in e.args:
+                r = int_typed(a, depth + 1)
+                if r is None:
+                    return None
+                out |= r
+            return out
+        return None  # any other call / construct: not known to be integer
+
+    hits = []
+    for nd in ast.walk(fnode):
+        ops = None
+        if isinstance(nd, ast.Call) and A.call_attr(nd) in INT_TRUNCATING_CALLS and nd.args and isinstance(nd.func, ast.Attribute) and (A.dotted(nd.func.value) or "") in ("np", "numpy", "onp"):
+            if any(k.arg == "dtype" for k in nd.keywords):
+                continue
+            ops = nd.args[:2] if A.call_attr(nd) != "reciprocal" else nd.args[:1]
+        elif isinstance(nd, ast.BinOp) and isinstance(nd.op, ast.FloorDiv):
+            ops = [nd.left, nd.right]
+        if ops is None:
+            continue
+        reached = set()
+        floating = False
+        for o in ops:
+            r = int_typed(o)
+            if r is None:
+                floating = True
+            else:
+                reached |= r
+        if reached and not floating:
+            hits.append((nd, sorted(reached)))
+    return hits
+
+
+def _int_dtype(ctx, rid, repo):
+    control = ast.parse("def f(self, x, mu=0, sigma=1):\n    z = np.subtract(x, mu) * np.reciprocal(sigma)\n    w = np.reciprocal(np.asarray(sigma, dtype=float))\n    return z + w + x // sigma + x / 2 // sigma\n").body[0]
+    got = _int_truncations(control)
+    if len(got) == 2:
+        ctx.holds(rid, "matcher self-test", "2 integer-truncating operations recognised, the 2 floating ones left alone")
+    else:
+        ctx.error(f"C04.R8: the integer-truncation matcher does not recognise its own control ({len(got)} hits)")
+    n = 0
+    bad = 0
+    for b, (rel, cname) in BACKENDS.items():
+        c = repo.cls(rel, cname)
+        for mname in PROB_METHODS:
+            m = c.methods.get(mname)
+            if m is None:
+                continue
+            n += 1
+            for nd, ps in _int_truncations(m.node):
+                bad += 1
+                ctx.violated(rid, m, nd, f"`{A.short(nd, 60)}` applies an operation that truncates on integer input to the caller's {', '.join(ps)} as given: with an integer-typed argument (the signature defaults are python ints; `sigma=2`, an int tensor) 1/sigma becomes 0 and the function returns a constant", expected="convert to the backend's floating type first (astensor / true division)", found="integer arithmetic on a caller-supplied value", node=nd)
+    if not bad:
+        ctx.holds(rid, f"probability primitives of {len(BACKENDS)} backends ({n} methods)", "no integer-truncating operation on caller-supplied values")
